@@ -46,6 +46,7 @@ var zzDefTexts = []string{
 	"((",                        // 7 unparsable
 	"tag:c",                     // 8 references tag/c
 	"tag:a tag:missing",         // 9 one existing and one missing reference
+	"@s:tag:b @s:sport:1 sport:2", // 10 references tag/b from a sub-query
 }
 
 func zzDefQuery(text string) (*query.Query, error) {
@@ -70,6 +71,15 @@ func zzDefQuery(text string) (*query.Query, error) {
 		return &query.Query{Conditions: query.ConditionsSet{{zzNum(id, 1, 0)}}}, nil
 	case "service:web":
 		return &query.Query{Conditions: query.ConditionsSet{{zzTagCond("", "service/web")}}}, nil
+	case zzSubDef:
+		cp := query.NumberConditionSummandTypeClientPort
+		return &query.Query{Conditions: query.ConditionsSet{{
+			&query.NumberCondition{Summands: []query.NumberConditionSummand{{SubQuery: "s", Type: cp, Factor: 1}}, Number: -1000},
+			&query.NumberCondition{Summands: []query.NumberConditionSummand{{SubQuery: "s", Type: cp, Factor: -1}}, Number: 1000},
+			&query.NumberCondition{Summands: []query.NumberConditionSummand{{Type: cp, Factor: 1}, {SubQuery: "s", Type: cp, Factor: -1}}, Number: 0},
+		}}}, nil
+	case "sport:9":
+		return &query.Query{Conditions: query.ConditionsSet{{zzNum(sp, 1, -9), zzNum(sp, -1, 9)}}}, nil
 	case "sport:80":
 		return &query.Query{Conditions: query.ConditionsSet{{zzNum(sp, 1, -80), zzNum(sp, -1, 80)}}}, nil
 	case "tag:a tag:missing":
@@ -78,8 +88,8 @@ func zzDefQuery(text string) (*query.Query, error) {
 		return &query.Query{Conditions: query.ConditionsSet{{zzTagCond("", "tag/missing")}}}, nil
 	case "id:1,2":
 		return &query.Query{Conditions: query.ConditionsSet{{zzNum(id, 1, -1), zzNum(id, -1, 2)}}}, nil
-	case "@s:tag:a @s:sport:1 sport:2":
-		return &query.Query{Conditions: query.ConditionsSet{{zzTagCond("s", "tag/a"),
+	case "@s:tag:a @s:sport:1 sport:2", "@s:tag:b @s:sport:1 sport:2":
+		return &query.Query{Conditions: query.ConditionsSet{{zzTagCond("s", "tag/"+text[7:8]),
 			&query.NumberCondition{Summands: []query.NumberConditionSummand{{SubQuery: "s", Type: sp, Factor: 1}}, Number: -1},
 			&query.NumberCondition{Summands: []query.NumberConditionSummand{{SubQuery: "s", Type: sp, Factor: -1}}, Number: 1},
 			zzNum(sp, 1, -2), zzNum(sp, -1, 2)}}}, nil
@@ -241,6 +251,16 @@ func ZZ_C11_TagCalls() {
 	names := []string{"tag/a", "tag/b", "mark/m", "tag/c"}[:zz.Param("names", 3)]
 	ndefs := zz.Param("defs", 8)
 	ncalls := zz.Param("calls", 3)
+	if zz.Param("prestate", 0) == 1 {
+		// an arbitrary valid configuration of three tags (plain, referencing,
+		// referencing from a sub-query), built in dependency order; the calls
+		// under test start from it
+		names = []string{"tag/a", "tag/b", "tag/c"}
+		zz.Assert(mgr.AddTag("tag/a", "#111111", "sport:123") == nil, "prestate")
+		zz.Assert(mgr.AddTag("tag/b", "#111111", []string{"sport:123", "tag:a", "@s:tag:a @s:sport:1 sport:2"}[zz.Choice("pre.b", 3)]) == nil, "prestate")
+		zz.Assert(mgr.AddTag("tag/c", "#111111", []string{"sport:123", "tag:a", "tag:b", "tag:a tag:b", "@s:tag:b @s:sport:1 sport:2"}[zz.Choice("pre.c", 5)]) == nil, "prestate")
+		zzInService(mgr, func() { zzCheckGraph(mgr) })
+	}
 	for step := 0; step < ncalls; step++ {
 		var before string
 		zzInService(mgr, func() { before = zzDigest(mgr) })
